@@ -11,6 +11,7 @@ import IgVerif.Gen.C18Powers
 import IgVerif.Model.Names
 import IgVerif.Model.CType
 import IgVerif.Model.Scope
+import IgVerif.Model.Traits
 /-! `igdriver <model>`: reads one op per line on stdin, prints one answer per line.
 Byte strings are hex ("-" = empty). -/
 open IgVerif
@@ -533,6 +534,79 @@ def scopeStep (_ : Unit) (toks : List String) : IO (Unit × String) := do
     | _ => return ((), "bad-op")
   | _ => return ((), "bad-op")
 
+/-! ### traits -/
+def parseSM (s : String) : Option Tr.SM :=
+  match s.toList with
+  | [v, m, vi, pu] => some { vis := v.toNat - 48, deleted := m == 'x', defaulted := m == 'd', virt := vi == 'v', pure := pu == 'p' }
+  | _ => none
+
+def parseVD (s : String) : Tr.VDecl :=
+  match s.splitOn ":" with
+  | [a, b, c] => ⟨a.toNat?.getD 0, b == "1", c == "1", false⟩
+  | _ => ⟨0, false, false, false⟩
+
+mutual
+def parseCls : Nat → List String → Option (Tr.Cls × List String)
+  | 0, _ => none
+  | fuel+1, toks =>
+    match toks with
+    | "K" :: nb :: rest =>
+      match parseBases fuel (nb.toNat?.getD 0) rest with
+      | some (bases, dc :: oc :: cc :: mc :: dt :: nf :: rest1) =>
+        match parseFields fuel (nf.toNat?.getD 0) rest1 with
+        | some (fields, nv :: rest2) =>
+          let k := nv.toNat?.getD 0
+          some (.mk bases (parseSM dc) (oc != "-") (parseSM cc) (parseSM mc) (parseSM dt) fields ((rest2.take k).map parseVD), rest2.drop k)
+        | _ => none
+      | _ => none
+    | _ => none
+def parseBases : Nat → Nat → List String → Option (Tr.Bases × List String)
+  | 0, _, _ => none
+  | _, 0, toks => some (.nil, toks)
+  | fuel+1, k+1, toks =>
+    match parseCls fuel toks with
+    | some (c, vis :: virt :: rest) =>
+      match parseBases fuel k rest with
+      | some (bs, rest2) => some (.cons c (vis.toNat?.getD 0) (virt == "1") bs, rest2)
+      | none => none
+    | _ => none
+def parseFields : Nat → Nat → List String → Option (Tr.Fields × List String)
+  | 0, _, _ => none
+  | _, 0, toks => some (.nil, toks)
+  | fuel+1, k+1, toks =>
+    match toks with
+    | code :: rest =>
+      match code.toList with
+      | [kind, ini, st] =>
+        let init := ini == '1'
+        let stat := st == 's'
+        if kind == 'k' then
+          match parseCls fuel rest with
+          | some (c, rest1) =>
+            match parseFields fuel k rest1 with
+            | some (fs, rest2) => some (.cons (.cls c stat) fs, rest2)
+            | none => none
+          | none => none
+        else
+          let f : Tr.FieldK := if kind == 'i' then .int init stat else if kind == 'c' then .cint init stat else .ref
+          match parseFields fuel k rest with
+          | some (fs, rest2) => some (.cons f fs, rest2)
+          | none => none
+      | _ => none
+    | [] => none
+end
+
+def b01 (b : Bool) : String := if b then "1" else "0"
+
+def traitsStep (_ : Unit) (toks : List String) : IO (Unit × String) := do
+  match toks with
+  | "traits" :: rest =>
+    match parseCls (rest.length + 1) rest with
+    | some (c, []) =>
+      return ((), s!"abstract={b01 (Tr.isAbstract c)} default={b01 (Tr.isDefault c)} copy={b01 (Tr.isCopy c)} destructible={b01 (Tr.isDestructible c)} polymorphic={b01 (Tr.isPolymorphic c)}")
+    | _ => return ((), "bad-op")
+  | _ => return ((), "bad-op")
+
 def main (args : List String) : IO UInt32 := do
   let stdin ← IO.getStdin
   match args with
@@ -546,4 +620,5 @@ def main (args : List String) : IO UInt32 := do
   | ["names"] => loop stdin namesStep ([] : Nm.HMap); return 0
   | ["ctype"] => loop stdin ctypeStep (); return 0
   | ["scope"] => loop stdin scopeStep (); return 0
+  | ["traits"] => loop stdin traitsStep (); return 0
   | _ => IO.eprintln "usage: igdriver <model>"; return 2
